@@ -6,6 +6,7 @@ package actor
 //                       the yielding sync shim) under the deterministic scheduler
 
 import (
+	"sync/atomic"
 	"fmt"
 	"sort"
 	"strconv"
@@ -220,6 +221,38 @@ func runRegHistory(t testing.TB, ops []string) string {
 				res = "HANG"
 			}
 			out = append(out, res+"["+strings.Join(h.takeEvents(), ",")+"]")
+		case "pg": // eight goroutines look registered ids up at the same moment: every answer is that actor's PID
+			var regd []string
+			for _, cand := range []string{"a", "b", "c", strings.Repeat("x", 62), strings.Repeat("x", 63), strings.Repeat("x", 64)} {
+				if e.Registry.GetPID("k", cand) != nil {
+					regd = append(regd, cand)
+				}
+			}
+			if len(regd) < 2 {
+				out = append(out, "skip")
+				continue
+			}
+			var bad int64
+			var wg sync.WaitGroup
+			for g := 0; g < 8; g++ {
+				g := g
+				wg.Add(1)
+				go func() {
+					defer wg.Done()
+					mine := regd[g%len(regd)]
+					for j := 0; j < 20000; j++ {
+						if p := e.Registry.GetPID("k", mine); p == nil || p.ID != "k/"+mine {
+							atomic.AddInt64(&bad, 1)
+						}
+					}
+				}()
+			}
+			wg.Wait()
+			if bad > 0 {
+				out = append(out, fmt.Sprintf("pg=BAD(%d wrong answers)", bad))
+			} else {
+				out = append(out, "pg=ok")
+			}
 		case "gp": // Registry.GetPID and Context.GetPID (asked from inside an actor) must agree
 			want := NewPID(e.address, "k/"+id)
 			rp := e.Registry.GetPID("k", id)
@@ -286,6 +319,7 @@ func TestVerifReg(t *testing.T) {
 	r := vgen.NewRng(vgen.Seed())
 	n := vgen.Scale(900, 8000)
 	kinds := []string{"sp", "sp", "sp", "st", "po", "gp", "gp", "sd", "sd", "pw", "sw", "rl"}
+	_ = kinds
 	ids := []string{"a", "b", "c"}
 	for i := 0; i < n; i++ {
 		rr := r.Fork()
@@ -293,8 +327,12 @@ func TestVerifReg(t *testing.T) {
 		nid := 1 + rr.Intn(3)
 		var ops []string
 		inWindow := map[string]bool{}
+		idset := ids
+		if rr.Chance(1, 6) { // long ids, each a prefix of the next: kind+id lengths 63, 64, 65 (buffer-size edges of a key builder)
+			idset = []string{strings.Repeat("x", 62), strings.Repeat("x", 63), strings.Repeat("x", 64)}
+		}
 		for j := 0; j < k; j++ {
-			kind, id := vgen.Pick(rr, kinds), ids[rr.Intn(nid)]
+			kind, id := vgen.Pick(rr, kinds), idset[rr.Intn(nid)]
 			if inWindow[id] && (kind == "st" || kind == "po" || kind == "sd" || kind == "pw" || kind == "sw") {
 				kind = vgen.Pick(rr, []string{"sp", "gp", "rl"}) // a second pill or a send into a draining actor is C07/C04 territory
 			}
@@ -305,6 +343,9 @@ func TestVerifReg(t *testing.T) {
 				inWindow[id] = false
 			}
 			ops = append(ops, kind+id)
+			if rr.Chance(1, 25) {
+				ops = append(ops, "pg") // concurrent lookups of whatever is registered now
+			}
 		}
 		emit(fmt.Sprintf("g%d", i), ops)
 	}
